@@ -86,7 +86,8 @@ P64 == <<1,8,4,4,6,7,4,4,0,7,3,7,0,9,5,5,1,6,1,6>>        \* 2^64
 
 \* documented typing of number literals
 Classify(l) ==
-  IF ~IsIntegerSyntax(l) THEN "float"
+  IF l[1] \in {78, 73} \/ (Len(l) > 1 /\ l[2] = 73) THEN "float"       \* NaN, Inf, -Inf (set through SetFloat only)
+  ELSE IF ~IsIntegerSyntax(l) THEN "float"
   ELSE LET m == Strip0(IntDigits(l)) IN
        IF IsNeg(l) THEN (IF CmpNat(m, P63) <= 0 THEN "int" ELSE "floatOverflowedInt")
        ELSE IF CmpNat(m, P63) < 0 THEN "int"
